@@ -73,7 +73,12 @@ async def _idle_case(loop, idle, gaps, partial_at, sock=None, wait=1, transfer=N
             times.append(loop.time())
             raw.send_raw(line.encode() + b"\r\n")
             await loop.settle()
-        if transfer and not raw.eof:
+        if transfer == "line+fragment" and not raw.eof:
+            # one segment that holds a whole line AND the beginning of the next one, then silence
+            times.append(loop.time())
+            raw.send_raw(b"PWD\r\nPW")
+            await loop.settle()
+        elif transfer and not raw.eof:
             for line in (["EPSV"] + (["STOR n.bin"] if transfer == "stor-stall" else ["RETR f.txt"])):
                 if line != "EPSV" and transfer == "stor-stall":
                     await W.data_connect(wd, raw)
@@ -354,7 +359,7 @@ def gen(ctx):
                 jobs.append(("idle", idle, [2.75, 3.25, 0.5], 2, sock, wait))
     # silence that begins while a transfer is alive and nothing else bounds it: the idle bound still holds
     for idle in (None, 3):
-        for tr in ("stor-stall", "retr-nodata"):
+        for tr in ("stor-stall", "retr-nodata", "line+fragment"):
             jobs.append(("idle", idle, [0.5], None, None, None, tr))
             jobs.append(("idle", idle, [], None, None, None, tr))
     for sock in (None, 0, 2):
